@@ -320,11 +320,12 @@ fn ev_view(t: &mut Tracer, s: &ReqSpec) {
         None => return,
     };
     if let Sut::Flow(f) = &mut b.sut {
-        let map = guarded(|| f.headers_map());
+        // (rows are copied out inside the call: works whether headers_map() hands out a map or a reference to one)
+        let map = guarded(|| f.headers_map().map(|m| m.iter().map(|(k, v)| (k.as_str().to_string(), v.as_bytes().to_vec())).collect::<Vec<(String, Vec<u8>)>>()));
         let line = guarded(|| (f.method().as_str().to_string(), f.uri().path_and_query().map(|p| p.as_str().to_string()).unwrap_or_else(|| "/".into()), version_str(f.version())));
         match (map, line) {
             (Some(Ok(m)), Some((method, target, version))) => {
-                let rows: Vec<Value> = m.iter().map(|(k, v)| json!({"n": k.as_str(), "v": hex(v.as_bytes())})).collect();
+                let rows: Vec<Value> = m.iter().map(|(k, v)| json!({"n": k, "v": hex(v)})).collect();
                 t.ev(json!({"ev":"view","res":"ok","method":method,"target":target,"version":version,"map":rows}));
             }
             (Some(Err(e)), Some((method, target, version))) => {
@@ -384,7 +385,7 @@ pub fn exercise(t: &mut Tracer, s: &ReqSpec, rng: &mut StdRng, nsched: usize, ch
             t.ev(json!({"ev":"run"}));
             if outs[0] == 65536 {
                 if let Sut::Flow(f) = &mut b2.sut {
-                    let _ = guarded(|| f.headers_map());
+                    let _ = guarded(|| f.headers_map().map(|m| m.len()));
                     t.class("srw:after-headers-map");
                 }
             }
@@ -424,7 +425,7 @@ pub fn exercise(t: &mut Tracer, s: &ReqSpec, rng: &mut StdRng, nsched: usize, ch
         if k % 2 == 1 {
             // a look at the headers before the first write is read-only
             if let Sut::Flow(f) = &mut b2.sut {
-                let _ = guarded(|| f.headers_map());
+                let _ = guarded(|| f.headers_map().map(|m| m.len()));
                 t.class("srw:after-headers-map");
             }
         }
